@@ -371,6 +371,7 @@ def vector_entry_points(m, degree, periodic, breaks, uniform_flag, ncells, T, re
     for i in range(ncells):
         pts += [breaks[i], (breaks[i] + breaks[i + 1]) / 2, breaks[i] + (breaks[i + 1] - breaks[i]) * Fr(1, 7)]
     pts.append(breaks[-1])
+    shuffle = list(range(len(pts) - 1, -1, -2)) + list(range(len(pts) - 2, -1, -2))          # last, third last, ..., then the others descending
 
     def body(ctx):
         knots, basis = build_space(m, degree, periodic, breaks, uniform_flag)
@@ -379,12 +380,16 @@ def vector_entry_points(m, degree, periodic, breaks, uniform_flag, ncells, T, re
         for j, c in enumerate(cs):
             sp.coeffs[j] = c
         X = numenv.karr(pts)
+        XS = numenv.karr([pts[k] for k in shuffle])          # the same points in a non-monotonic order
         out = {}
         for der in (0, 1):
             out[('array', der)] = list(sp.eval(X, der))
             y = np.empty(len(pts), dtype=object)
             sp.eval_vector(X, y, der)
             out[('inplace', der)] = list(y)
+            ys = np.empty(len(pts), dtype=object)
+            sp.eval_vector(XS, ys, der)
+            out[('inplace_shuffled', der)] = list(ys)
         bas = []
         for i in range(basis.nbasis):
             bas.append([basis[i].eval(K(p)) for p in pts])
@@ -401,6 +406,8 @@ def vector_entry_points(m, degree, periodic, breaks, uniform_flag, ncells, T, re
                 orc = SO.eval_fraction(T, degree, cs, p, der)
                 for ep in ('array', 'inplace'):
                     bad.append((ep, der, p, toreal(zt(out[(ep, der)][k])) != toreal(zt(orc))))
+                ks = shuffle.index(k)
+                bad.append(('inplace_shuffled', der, p, toreal(zt(out[('inplace_shuffled', der)][ks])) != toreal(zt(orc))))
         n = ncells if periodic else ncells + degree
         for k, p in enumerate(pts):
             cell = SO.find_cell_fraction(T, degree, p)
@@ -417,8 +424,37 @@ def vector_entry_points(m, degree, periodic, breaks, uniform_flag, ncells, T, re
         elif r == 'sat':
             mdl = ctx.model()
             which = [b[:3] for b in bad if z3.is_true(mdl.eval(b[3], model_completion=True))][:3]
-            res['violations'].append(('entrypoint', 'entry point %s disagrees with oracle (degree %d %s cells %d)' % (which, degree, item[2], ncells),
-                                      dict(kind='entry', which=str(which), item=[str(v) for v in item[:5]])))
+            # replay on the float code: the model's coefficients, the same points in the same orders
+            prob = None
+            numenv.disable()
+            try:
+                fb = float_space(m, degree, periodic, breaks, uniform_flag)
+                fs = m['spl'].Spline1D(fb)
+                cv = [float(Fr(symx.model_value(mdl, c))) for c in cs]
+                fs.coeffs[:] = cv
+                Xf = np.array([float(p) for p in pts])
+                for der in (0, 1):
+                    want = np.array([float(SO.eval_fraction(T, degree, [Fr(c).limit_denominator(10 ** 9) for c in cv], p, der)) for p in pts])
+                    scale = max(1.0, float(np.max(np.abs(want))))
+                    for name, order in (('array', list(range(len(pts)))), ('inplace', list(range(len(pts)))), ('inplace_shuffled', shuffle)):
+                        xo = Xf[order]
+                        if name == 'array':
+                            got = np.array(fs.eval(xo, der), dtype=float)
+                        else:
+                            got = np.empty(len(pts))
+                            fs.eval_vector(xo, got, der)
+                        dev = float(np.max(np.abs(got - want[order])))
+                        if dev > 1e-7 * scale and prob is None:
+                            prob = '%s entry point, derivative %d: float result differs from the B-spline by %.3g' % (name, der, dev)
+            except Exception as e:
+                prob = 'exception %s: %s' % (type(e).__name__, e)
+            finally:
+                numenv.enable()
+            if prob:
+                res['violations'].append(('entrypoint', 'entry point %s disagrees with oracle (degree %d %s cells %d): %s' % (which, degree, item[2], ncells, prob),
+                                          dict(kind='entry', which=str(which), item=[str(v) for v in item[:5]], concrete=prob)))
+            else:
+                res['inconclusive'].append('entry-point model does not reproduce in floats: %s %r' % (which, item[:5]))
         else:
             res['inconclusive'].append('unknown entry-point query')
 
